@@ -1,7 +1,8 @@
 /- C15 helper lemmas, the shipped discipline (client lock around connect + transaction, manager lock nested): the
    invariant "holder of the client lock = the only thread inside `execute`; the transport is exactly where its
-   transaction left it (byte level); only connection 0 ever exists", preserved by every step of every thread, for a
-   client that is connected or not when the threads start.  Consequences: own reply, no deadlock, fairness. -/
+   transaction left it (byte level, on the newest connection; connections not yet opened are empty)", preserved by
+   every step of every thread — for a client that is connected or not when the threads start, whatever connection
+   attempts are refused and whatever replies are lost.  Consequences: own reply / own error, no deadlock, fairness. -/
 import Pymodbus.Lemmas.Sched
 namespace Pymodbus.Sched
 open Pymodbus Pymodbus.Framer
@@ -22,108 +23,149 @@ theorem curPending_congr' {th th' : Thread} (hc : th'.cur = th.cur) (h : onlyRel
 theorem curPending_of {th : Thread} (h : onlyReleases th.ops = false) : curPending th = [th.cur] := by
   simp [curPending, h]
 
-/-- the part of the state the transactions share on the transport side (connection 0 is the only one ever opened) -/
+/-- the transport as one connection sees it -/
 structure Shared where
   pending : Bytes
   stream : Bytes
   buf : Bytes
   wire : List Chunk
 
-def State.shared (s : State) : Shared := ⟨s.pending 0, s.stream 0, s.buf, s.wire⟩
-
 /-- nothing in transit: the peer has parsed everything, every reply byte has been read, the framer buffer is
     empty, the wire holds whole frames -/
 def Quiet (sh : Shared) : Prop := sh.pending = [] ∧ sh.stream = [] ∧ sh.buf = [] ∧ pairs sh.wire = true
 
-/-- either the one connection is open, or none has been opened yet -/
-def SockOK (sock : Option Nat) (nc : Nat) : Prop := sock = some 0 ∨ (sock = none ∧ nc = 0)
+/-- what the invariant looks at besides the threads: the transport, the socket, the manager lock -/
+structure View where
+  pending : Nat → Bytes
+  stream : Nat → Bytes
+  buf : Bytes
+  wire : List Chunk
+  sock : Option Nat
+  nc : Nat
+  m : Option (Nat × Nat)
 
-/-- where the holder is between taking and giving back the MANAGER lock, and what the transport looks like there -/
-inductive IStage (sh : Shared) (t : Nat) (th : Thread) : Prop where
+def State.view (s : State) : View := ⟨s.pending, s.stream, s.buf, s.wire, s.sock, s.nextConn, s.locks 1⟩
+
+def View.shared (v : View) (c : Nat) : Shared := ⟨v.pending c, v.stream c, v.buf, v.wire⟩
+
+/-- connections that have not been opened yet are empty -/
+def FreshF (pending stream : Nat → Bytes) (nc : Nat) : Prop := ∀ c, nc ≤ c → pending c = [] ∧ stream c = []
+
+theorem FreshF.upd_pending {p st : Nat → Bytes} {nc : Nat} (h : FreshF p st nc) (c : Nat) (x : Bytes) (hc : c < nc) :
+    FreshF (upd p c x) st nc := by
+  intro c' hc'
+  have hne : c' ≠ c := by omega
+  simp only [upd, hne, if_false]
+  exact h c' hc'
+
+theorem FreshF.upd_stream {p st : Nat → Bytes} {nc : Nat} (h : FreshF p st nc) (c : Nat) (x : Bytes) (hc : c < nc) :
+    FreshF p (upd st c x) nc := by
+  intro c' hc'
+  have hne : c' ≠ c := by omega
+  simp only [upd, hne, if_false]
+  exact h c' hc'
+
+/-- no transaction under way: framer buffer empty, whole frames on the wire, unopened connections empty, and the
+    connection in use (if any) is the newest one with nothing in transit -/
+def Idle (v : View) : Prop :=
+  v.buf = [] ∧ pairs v.wire = true ∧ FreshF v.pending v.stream v.nc ∧
+  ∀ c, v.sock = some c → c + 1 = v.nc ∧ v.pending c = [] ∧ v.stream c = []
+
+theorem Idle.quiet {v : View} (h : Idle v) (c : Nat) (hs : v.sock = some c) : Quiet (v.shared c) :=
+  ⟨(h.2.2.2 c hs).2.1, (h.2.2.2 c hs).2.2, h.1, h.2.1⟩
+
+/-- where the holder is between taking and giving back the MANAGER lock, and what connection `c` looks like there -/
+inductive IStage (sh : Shared) (c : Nat) (t : Nat) (th : Thread) : Prop where
   | tid (k : Nat) (h : th.ops = .tid :: .connect :: .flush :: .send1 :: .send2 :: tailOps k) (q : Quiet sh)
-  | connect (k : Nat) (h : th.ops = .connect :: .flush :: .send1 :: .send2 :: tailOps k) (q : Quiet sh) (hf : th.full = false)
-  | flush (k : Nat) (h : th.ops = .flush :: .send1 :: .send2 :: tailOps k) (q : Quiet sh) (hf : th.full = false)
+  | connect (k : Nat) (h : th.ops = .connect :: .flush :: .send1 :: .send2 :: tailOps k) (q : Quiet sh)
+  | flush (k : Nat) (h : th.ops = .flush :: .send1 :: .send2 :: tailOps k) (q : Quiet sh)
       (hfr : th.frame = frameOf th.tidv th.cur)
-  | send1 (k : Nat) (h : th.ops = .send1 :: .send2 :: tailOps k) (q : Quiet sh) (hf : th.full = false)
-      (hfr : th.frame = frameOf th.tidv th.cur) (hc : th.sconn = 0)
-  | send2 (k : Nat) (h : th.ops = .send2 :: tailOps k) (hf : th.full = false)
-      (hfr : th.frame = frameOf th.tidv th.cur) (hc : th.sconn = 0) (hp : sh.pending = th.frame.take 7)
+  | send1 (k : Nat) (h : th.ops = .send1 :: .send2 :: tailOps k) (q : Quiet sh)
+      (hfr : th.frame = frameOf th.tidv th.cur) (hc : th.sconn = c)
+  | send2 (k : Nat) (h : th.ops = .send2 :: tailOps k)
+      (hfr : th.frame = frameOf th.tidv th.cur) (hc : th.sconn = c) (hp : sh.pending = th.frame.take 7)
       (hs : sh.stream = []) (hb : sh.buf = [])
-      (hw : ∃ w, pairs w = true ∧ sh.wire = w ++ [⟨t, true, 0, th.frame.take 7⟩])
-  | waiting (k : Nat) (h : th.ops = tailOps k) (hf : th.full = false) (hp : sh.pending = [])
-      (hs : sh.stream = replyOf th.tidv th.cur) (hb : sh.buf = []) (hw : pairs sh.wire = true)
-  | recv2 (h : th.ops = [.recv2, .process, .release, .crelease]) (hh : th.hdr = (replyOf th.tidv th.cur).take 8)
+      (hw : ∃ w, pairs w = true ∧ sh.wire = w ++ [⟨t, true, c, th.frame.take 7⟩])
+  | waiting (k : Nat) (h : th.ops = tailOps k) (hp : sh.pending = [])
+      (hs : sh.stream = answer th.cur (replyOf th.tidv th.cur)) (hb : sh.buf = []) (hw : pairs sh.wire = true)
+  | recv2 (h : th.ops = [.recv2, .process, .release, .crelease]) (hl : th.cur.lost = false)
+      (hh : th.hdr = (replyOf th.tidv th.cur).take 8)
       (hp : sh.pending = []) (hs : sh.stream = (replyOf th.tidv th.cur).drop 8) (hb : sh.buf = [])
       (hw : pairs sh.wire = true)
-  | process (h : th.ops = [.process, .release, .crelease]) (hr : th.resp = replyOf th.tidv th.cur) (q : Quiet sh)
+  | process (h : th.ops = [.process, .release, .crelease])
+      (hr : th.resp = answer th.cur (replyOf th.tidv th.cur)) (q : Quiet sh)
   | release (h : th.ops = [.release, .crelease]) (q : Quiet sh)
 
-/-- where the holder of the CLIENT lock is inside `BaseModbusClient.execute`; `m` = state of the manager lock -/
-inductive Stage (sh : Shared) (sock : Option Nat) (nc : Nat) (m : Option (Nat × Nat)) (t : Nat) (th : Thread) :
-    Prop where
+/-- where the holder of the CLIENT lock is inside `BaseModbusClient.execute` -/
+inductive Stage (v : View) (t : Nat) (th : Thread) : Prop where
   | pre (k : Nat) (h : th.ops = .preconnect :: .acquire :: .tid :: .connect :: .flush :: .send1 :: .send2 :: tailOps k)
-      (q : Quiet sh) (hs : SockOK sock nc) (hm : m = none)
+      (q : Idle v) (hm : v.m = none)
   | opening (k : Nat) (h : th.ops = .open :: .acquire :: .tid :: .connect :: .flush :: .send1 :: .send2 :: tailOps k)
-      (q : Quiet sh) (hs : sock = none ∧ nc = 0) (hm : m = none)
+      (q : Idle v) (hs : v.sock = none) (hm : v.m = none)
   | acq (k : Nat) (h : th.ops = .acquire :: .tid :: .connect :: .flush :: .send1 :: .send2 :: tailOps k)
-      (q : Quiet sh) (hs : sock = some 0) (hm : m = none)
-  | inner (hs : sock = some 0) (hm : m = some (t, 1)) (st : IStage sh t th)
-  | crel (h : th.ops = [.crelease]) (q : Quiet sh) (hs : SockOK sock nc) (hm : m = none)
+      (q : Idle v) (c : Nat) (hs : v.sock = some c) (hm : v.m = none)
+  | inner (c : Nat) (hs : v.sock = some c) (hc1 : c + 1 = v.nc) (hfr : FreshF v.pending v.stream v.nc)
+      (hm : v.m = some (t, 1)) (st : IStage (v.shared c) c t th)
+  /- the reply was lost: the failed read has closed the connection; the error object is still to be made -/
+  | closedProc (h : th.ops = [.process, .release, .crelease]) (hr : th.resp = []) (hl : th.cur.lost = true)
+      (hs : v.sock = none) (hb : v.buf = []) (hw : pairs v.wire = true) (hfr : FreshF v.pending v.stream v.nc)
+      (hm : v.m = some (t, 1))
+  | closedRel (h : th.ops = [.release, .crelease]) (hs : v.sock = none) (hb : v.buf = [])
+      (hw : pairs v.wire = true) (hfr : FreshF v.pending v.stream v.nc) (hm : v.m = some (t, 1))
+  | crel (h : th.ops = [.crelease]) (q : Idle v) (hm : v.m = none)
 
 /-- not inside `execute`: between calls, or about to take the client lock -/
 def Outside (th : Thread) : Prop :=
   th.ops = [] ∨ ∃ k, th.ops =
     .cacquire :: .preconnect :: .acquire :: .tid :: .connect :: .flush :: .send1 :: .send2 :: tailOps k
 
-/-- what a caller may be handed: the reply to its own request, or — when a connection attempt was refused — the
-    `ConnectionException` raised by `BaseModbusClient.execute` -/
 abbrev Fate (cok : Nat → Bool) (x : Req × Nat × Result) : Prop := Spec.Answered cok x
 
-/-- per-thread bookkeeping: every result so far is the caller's own reply (or the connection exception), and
-    results ++ request in progress ++ requests not started = the requests the thread was given -/
+/-- per-thread bookkeeping: every result so far is what the caller is due (own reply / own error object / the
+    connection exception), and results ++ request in progress ++ requests not started = the requests it was given -/
 structure ThreadOK (reqs : Nat → List Req) (cok : Nat → Bool) (t : Nat) (th : Thread) : Prop where
   served : ∀ x ∈ th.results, Fate cok x
   conserve : Conserved reqs t th
 
 structure Inv (reqs : Nat → List Req) (s : State) : Prop where
-  noResp : s.noResp = []
-  free : s.locks 0 = none →
-    Quiet s.shared ∧ SockOK s.sock s.nextConn ∧ s.locks 1 = none ∧ ∀ t, Outside (s.threads t)
+  free : s.locks 0 = none → Idle s.view ∧ s.locks 1 = none ∧ ∀ t, Outside (s.threads t)
   held : ∀ h d, s.locks 0 = some (h, d) →
-    d = 1 ∧ Stage s.shared s.sock s.nextConn (s.locks 1) h (s.threads h) ∧ ∀ t, t ≠ h → Outside (s.threads t)
+    d = 1 ∧ Stage s.view h (s.threads h) ∧ ∀ t, t ≠ h → Outside (s.threads t)
   ok : ∀ t, ThreadOK reqs s.connOk t (s.threads t)
 
-theorem IStage.head {sh : Shared} {t : Nat} {th : Thread} (h : IStage sh t th) :
-    ∃ op l, th.ops = op :: l ∧ op ≠ .acquire ∧ op ≠ .cacquire := by
+theorem IStage.head {sh : Shared} {c t : Nat} {th : Thread} (h : IStage sh c t th) :
+    ∃ op l, th.ops = op :: l ∧ op ≠ .acquire ∧ op ≠ .cacquire ∧ op ≠ .open ∧ op ≠ .iopen := by
   cases h with
   | waiting k h =>
-    obtain ⟨op, l, e, _, _, h3, h4⟩ := tailOps_head k
-    exact ⟨op, l, by rw [h, e], h3, h4⟩
-  | tid k h => exact ⟨_, _, h, by simp, by simp⟩
-  | connect k h => exact ⟨_, _, h, by simp, by simp⟩
-  | flush k h => exact ⟨_, _, h, by simp, by simp⟩
-  | send1 k h => exact ⟨_, _, h, by simp, by simp⟩
-  | send2 k h => exact ⟨_, _, h, by simp, by simp⟩
-  | recv2 h => exact ⟨_, _, h, by simp, by simp⟩
-  | process h => exact ⟨_, _, h, by simp, by simp⟩
-  | release h => exact ⟨_, _, h, by simp, by simp⟩
+    cases k with
+    | zero => exact ⟨_, _, by rw [h, tailOps_zero], by simp, by simp, by simp, by simp⟩
+    | succ k => exact ⟨_, _, by rw [h, tailOps_succ], by simp, by simp, by simp, by simp⟩
+  | tid k h => exact ⟨_, _, h, by simp, by simp, by simp, by simp⟩
+  | connect k h => exact ⟨_, _, h, by simp, by simp, by simp, by simp⟩
+  | flush k h => exact ⟨_, _, h, by simp, by simp, by simp, by simp⟩
+  | send1 k h => exact ⟨_, _, h, by simp, by simp, by simp, by simp⟩
+  | send2 k h => exact ⟨_, _, h, by simp, by simp, by simp, by simp⟩
+  | recv2 h => exact ⟨_, _, h, by simp, by simp, by simp, by simp⟩
+  | process h => exact ⟨_, _, h, by simp, by simp, by simp, by simp⟩
+  | release h => exact ⟨_, _, h, by simp, by simp, by simp, by simp⟩
 
 /-- the holder of the client lock can always move: its next operation is never the acquisition of the client lock,
     and when it is the acquisition of the manager lock, that lock is free -/
-theorem Stage.head {sh : Shared} {sock : Option Nat} {nc : Nat} {m : Option (Nat × Nat)} {t : Nat} {th : Thread}
-    (h : Stage sh sock nc m t th) :
-    ∃ op l, th.ops = op :: l ∧ op ≠ .cacquire ∧ (op = .acquire → m = none) := by
+theorem Stage.head {v : View} {t : Nat} {th : Thread} (h : Stage v t th) :
+    ∃ op l, th.ops = op :: l ∧ op ≠ .cacquire ∧ (op = .acquire → v.m = none) ∧ op ≠ .iopen ∧
+      (op = .open → th.inFlight = false) := by
   cases h with
-  | pre k h => exact ⟨_, _, h, by simp, by simp⟩
-  | opening k h => exact ⟨_, _, h, by simp, by simp⟩
-  | acq k h q hs hm => exact ⟨_, _, h, by simp, fun _ => hm⟩
-  | inner hs hm st =>
-    obtain ⟨op, l, e, h1, h2⟩ := st.head
-    exact ⟨op, l, e, h2, fun e' => absurd e' h1⟩
-  | crel h => exact ⟨_, _, h, by simp, by simp⟩
+  | pre k h => exact ⟨_, _, h, by simp, by simp, by simp, by simp⟩
+  | opening k h => exact ⟨_, _, h, by simp, by simp, by simp, fun _ => by simp [Thread.inFlight, h]⟩
+  | acq k h q c hs hm => exact ⟨_, _, h, by simp, fun _ => hm, by simp, by simp⟩
+  | inner c hs hc1 hfr hm st =>
+    obtain ⟨op, l, e, h1, h2, h3, h4⟩ := st.head
+    exact ⟨op, l, e, h2, fun e' => absurd e' h1, h4, fun e' => absurd e' h3⟩
+  | closedProc h => exact ⟨_, _, h, by simp, by simp, by simp, by simp⟩
+  | closedRel h => exact ⟨_, _, h, by simp, by simp, by simp, by simp⟩
+  | crel h => exact ⟨_, _, h, by simp, by simp, by simp, by simp⟩
 
-theorem Stage.not_outside {sh : Shared} {sock : Option Nat} {nc : Nat} {m : Option (Nat × Nat)} {t : Nat}
-    {th : Thread} (h : Stage sh sock nc m t th) : ¬ Outside th := by
+theorem Stage.not_outside {v : View} {t : Nat} {th : Thread} (h : Stage v t th) : ¬ Outside th := by
   obtain ⟨op, l, ho, hne, _⟩ := h.head
   intro hout
   cases hout with
@@ -140,12 +182,11 @@ variable {reqs : Nat → List Req}
 
 /-- the holder of the client lock moves inside `execute` (the client lock does not change hands) -/
 theorem inv_holder_step {s s' : State} {h : Nat} (hi : Inv reqs s) (hl : s.locks 0 = some (h, 1))
-    (hoth : ∀ u, u ≠ h → s'.threads u = s.threads u) (hl0 : s'.locks 0 = some (h, 1)) (hn : s'.noResp = [])
-    (hst : Stage s'.shared s'.sock s'.nextConn (s'.locks 1) h (s'.threads h))
-    (hok : ThreadOK reqs s.connOk h (s'.threads h))
+    (hoth : ∀ u, u ≠ h → s'.threads u = s.threads u) (hl0 : s'.locks 0 = some (h, 1))
+    (hst : Stage s'.view h (s'.threads h)) (hok : ThreadOK reqs s.connOk h (s'.threads h))
     (hck : s'.connOk = s.connOk := by first | rfl | exact stepOp_connOk _ _ _ _ _ _) : Inv reqs s' := by
   obtain ⟨_, _, hout⟩ := hi.held h 1 hl
-  refine ⟨hn, ?_, ?_, ?_⟩
+  refine ⟨?_, ?_, ?_⟩
   · intro hf; rw [hl0] at hf; cases hf
   · intro h' d hd
     rw [hl0] at hd
@@ -160,15 +201,14 @@ theorem inv_holder_step {s s' : State} {h : Nat} (hi : Inv reqs s) (hl : s.locks
 /-- a thread that does not hold the client lock moves without touching any lock or the transport -/
 theorem inv_outsider_step {s s' : State} {t : Nat} (hi : Inv reqs s)
     (hnot : ∀ h d, s.locks 0 = some (h, d) → t ≠ h)
-    (hoth : ∀ u, u ≠ t → s'.threads u = s.threads u) (hlocks : s'.locks = s.locks) (hn : s'.noResp = s.noResp)
-    (hso : s'.sock = s.sock) (hnc : s'.nextConn = s.nextConn) (hsh : s'.shared = s.shared)
+    (hoth : ∀ u, u ≠ t → s'.threads u = s.threads u) (hlocks : s'.locks = s.locks) (hv : s'.view = s.view)
     (hout : Outside (s'.threads t)) (hok : ThreadOK reqs s.connOk t (s'.threads t))
     (hck : s'.connOk = s.connOk := by first | rfl | exact stepOp_connOk _ _ _ _ _ _) : Inv reqs s' := by
-  refine ⟨by rw [hn]; exact hi.noResp, ?_, ?_, ?_⟩
+  refine ⟨?_, ?_, ?_⟩
   · intro hf
     rw [hlocks] at hf
-    obtain ⟨q, hs, hm, ho⟩ := hi.free hf
-    refine ⟨by rw [hsh]; exact q, by rw [hso, hnc]; exact hs, by rw [hlocks]; exact hm, fun u => ?_⟩
+    obtain ⟨q, hm, ho⟩ := hi.free hf
+    refine ⟨by rw [hv]; exact q, by rw [hlocks]; exact hm, fun u => ?_⟩
     by_cases hu : u = t
     · subst hu; exact hout
     · rw [hoth u hu]; exact ho u
@@ -177,7 +217,7 @@ theorem inv_outsider_step {s s' : State} {t : Nat} (hi : Inv reqs s)
     obtain ⟨hd, hst, ho⟩ := hi.held h d hl
     have hth := hnot h d hl
     refine ⟨hd, ?_, ?_⟩
-    · rw [hoth h (Ne.symm hth), hsh, hso, hnc, hlocks]; exact hst
+    · rw [hoth h (Ne.symm hth), hv]; exact hst
     · intro u hu
       by_cases hut : u = t
       · subst hut; exact hout
@@ -191,12 +231,10 @@ theorem inv_outsider_step {s s' : State} {t : Nat} (hi : Inv reqs s)
 /-- a thread takes the free client lock -/
 theorem inv_cacquire {s s' : State} {t : Nat} (hi : Inv reqs s) (hf : s.locks 0 = none)
     (hoth : ∀ u, u ≠ t → s'.threads u = s.threads u) (hl0 : s'.locks 0 = some (t, 1))
-    (hn : s'.noResp = s.noResp)
-    (hst : Stage s'.shared s'.sock s'.nextConn (s'.locks 1) t (s'.threads t))
-    (hok : ThreadOK reqs s.connOk t (s'.threads t))
+    (hst : Stage s'.view t (s'.threads t)) (hok : ThreadOK reqs s.connOk t (s'.threads t))
     (hck : s'.connOk = s.connOk := by first | rfl | exact stepOp_connOk _ _ _ _ _ _) : Inv reqs s' := by
-  obtain ⟨_, _, _, ho⟩ := hi.free hf
-  refine ⟨by rw [hn]; exact hi.noResp, ?_, ?_, ?_⟩
+  obtain ⟨_, _, ho⟩ := hi.free hf
+  refine ⟨?_, ?_, ?_⟩
   · intro h; rw [hl0] at h; cases h
   · intro h d hl
     rw [hl0] at hl
@@ -210,14 +248,14 @@ theorem inv_cacquire {s s' : State} {t : Nat} (hi : Inv reqs s) (hf : s.locks 0 
 
 /-- the holder gives the client lock back -/
 theorem inv_crelease {s s' : State} {h : Nat} (hi : Inv reqs s) (hl : s.locks 0 = some (h, 1))
-    (hoth : ∀ u, u ≠ h → s'.threads u = s.threads u) (hl0 : s'.locks 0 = none) (hn : s'.noResp = s.noResp)
-    (q : Quiet s'.shared) (hs : SockOK s'.sock s'.nextConn) (hm : s'.locks 1 = none)
+    (hoth : ∀ u, u ≠ h → s'.threads u = s.threads u) (hl0 : s'.locks 0 = none)
+    (q : Idle s'.view) (hm : s'.locks 1 = none)
     (hout : Outside (s'.threads h)) (hok : ThreadOK reqs s.connOk h (s'.threads h))
     (hck : s'.connOk = s.connOk := by first | rfl | exact stepOp_connOk _ _ _ _ _ _) : Inv reqs s' := by
   obtain ⟨_, _, ho⟩ := hi.held h 1 hl
-  refine ⟨by rw [hn]; exact hi.noResp, ?_, ?_, ?_⟩
+  refine ⟨?_, ?_, ?_⟩
   · intro _
-    refine ⟨q, hs, hm, fun u => ?_⟩
+    refine ⟨q, hm, fun u => ?_⟩
     by_cases hu : u = h
     · subst hu; exact hout
     · rw [hoth u hu]; exact ho u hu
@@ -233,242 +271,198 @@ theorem filter_crelease_tail (k : Nat) : (tailOps k).filter (· == Op.crelease) 
   | zero => rfl
   | succ k ih => rw [tailOps_succ, List.filter_cons_of_neg (by decide)]; exact ih
 
-/-- the holder moves between taking and giving back the manager lock (no lock changes) -/
-theorem inv_inner_step {s s' : State} {h : Nat} (hi : Inv reqs s) (hl : s.locks 0 = some (h, 1))
-    (hoth : ∀ u, u ≠ h → s'.threads u = s.threads u) (hlocks : s'.locks = s.locks) (hn : s'.noResp = [])
-    (hso : s'.sock = some 0) (hm : s.locks 1 = some (h, 1)) (ist : IStage s'.shared h (s'.threads h))
-    (hok : ThreadOK reqs s.connOk h (s'.threads h))
-    (hck : s'.connOk = s.connOk := by first | rfl | exact stepOp_connOk _ _ _ _ _ _) : Inv reqs s' :=
-  inv_holder_step hi hl hoth (by rw [hlocks]; exact hl) hn (Stage.inner hso (by rw [hlocks]; exact hm) ist) hok hck
+theorem processResp_nil (u tid : Nat) : processResp u tid [] [] = (.err .modbusIO, []) := by
+  simp [processResp, procRun, tcpStep]
 
-theorem inv_holder_op {s : State} {t : Nat} {op : Op} {ops : List Op} (hi : Inv reqs s)
-    (hl : s.locks 0 = some (t, 1)) (hst : Stage s.shared s.sock s.nextConn (s.locks 1) t (s.threads t))
+theorem answer_nil (r : Req) : answer r [] = [] := by unfold answer; split <;> rfl
+theorem answer_lost {r : Req} (h : r.lost = true) (b : Bytes) : answer r b = [] := by simp [answer, h]
+theorem answer_kept {r : Req} (h : r.lost = false) (b : Bytes) : answer r b = b := by simp [answer, h]
+
+/-- the holder moves between taking and giving back the manager lock, on connection `c` (no lock changes, the
+    socket stays) -/
+theorem inv_inner_step {s s' : State} {h c : Nat} (hi : Inv reqs s) (hl : s.locks 0 = some (h, 1))
+    (hoth : ∀ u, u ≠ h → s'.threads u = s.threads u) (hlocks : s'.locks = s.locks)
+    (hso : s'.sock = some c) (hnc : s'.nextConn = s.nextConn) (hc1 : c + 1 = s.nextConn)
+    (hfr : FreshF s'.pending s'.stream s.nextConn) (hm : s.locks 1 = some (h, 1))
+    (ist : IStage (s'.view.shared c) c h (s'.threads h)) (hok : ThreadOK reqs s.connOk h (s'.threads h))
+    (hck : s'.connOk = s.connOk := by first | rfl | exact stepOp_connOk _ _ _ _ _ _) : Inv reqs s' :=
+  inv_holder_step hi hl hoth (by rw [hlocks]; exact hl)
+    (Stage.inner c hso (by show c + 1 = s'.nextConn; rw [hnc]; exact hc1)
+      (by show FreshF s'.pending s'.stream s'.nextConn; rw [hnc]; exact hfr)
+      (by show s'.locks 1 = _; rw [hlocks]; exact hm) ist) hok hck
+
+theorem inv_holder_inner {s : State} {t c : Nat} {op : Op} {ops : List Op} (hi : Inv reqs s)
+    (hl : s.locks 0 = some (t, 1)) (hs : s.sock = some c) (hc1 : c + 1 = s.nextConn)
+    (hfr : FreshF s.pending s.stream s.nextConn) (hm : s.locks 1 = some (t, 1))
+    (st : IStage (s.view.shared c) c t (s.threads t))
     (hops : (s.threads t).ops = op :: ops) : Inv reqs (stepOp .whole s t (s.threads t) ops op) := by
   have hok := hi.ok t
-  have hnr := hi.noResp
   have hoth := fun u (hu : u ≠ t) => stepOp_threads_other .whole s t (s.threads t) ops op u hu
-  cases hst with
-  | pre k h q hso hm =>
+  have hcn : c < s.nextConn := by omega
+  cases st with
+  | tid k h q =>
     rw [h] at hops; cases hops
-    cases hsock : s.sock with
-    | some c =>
-      have hc : s.sock = some 0 := by
-        cases hso with
-        | inl h0 => exact h0
-        | inr h0 => rw [h0.1] at hsock; cases hsock
-      refine inv_holder_step hi hl hoth (by simpa [stepOp, hsock] using hl) (by simpa [stepOp, hsock] using hnr)
-        (Stage.acq k ?_ ?_ ?_ ?_) ?_
-      · simp [stepOp, hsock, upd_same]
-      · simpa [stepOp, hsock, State.shared] using q
-      · simpa [stepOp, hsock] using hc
-      · simpa [stepOp, hsock] using hm
-      · exact hok.congr (by simp [stepOp, hsock, upd_same]) (by simp [stepOp, hsock, upd_same])
-          (curPending_congr' (by simp [stepOp, hsock, upd_same]) (by rw [h]; simp)
-            (by simp [stepOp, hsock, upd_same]))
-    | none =>
-      have hnc : s.nextConn = 0 := by
-        cases hso with
-        | inl h0 => rw [h0] at hsock; cases hsock
-        | inr h0 => exact h0.2
-      refine inv_holder_step hi hl hoth (by simpa [stepOp, hsock] using hl) (by simpa [stepOp, hsock] using hnr)
-        (Stage.opening k ?_ ?_ ?_ ?_) ?_
-      · simp [stepOp, hsock, upd_same]
-      · simpa [stepOp, hsock, State.shared] using q
-      · simpa [stepOp, hsock] using hnc
-      · simpa [stepOp, hsock] using hm
-      · exact hok.congr (by simp [stepOp, hsock, upd_same]) (by simp [stepOp, hsock, upd_same])
-          (curPending_congr' (by simp [stepOp, hsock, upd_same]) (by rw [h]; simp)
-            (by simp [stepOp, hsock, upd_same]))
-  | opening k h q hso hm =>
-    rw [h] at hops; cases hops
-    cases hc : s.connOk s.attempts with
-    | true =>
-      refine inv_holder_step hi hl hoth (by simpa [stepOp, hc] using hl) (by simpa [stepOp, hc] using hnr)
-        (Stage.acq k ?_ ?_ ?_ ?_) ?_
-      · simp [stepOp, hc, upd_same]
-      · simpa [stepOp, hc, State.shared] using q
-      · simp [stepOp, hc, hso.2]
-      · simpa [stepOp, hc] using hm
-      · exact hok.congr (by simp [stepOp, hc, upd_same]) (by simp [stepOp, hc, upd_same])
-          (curPending_congr' (by simp [stepOp, hc, upd_same]) (by rw [h]; simp) (by simp [stepOp, hc, upd_same]))
-    | false =>
-      -- refused: ConnectionException leaves `execute`, the `with` gives the client lock back
-      have hfil : ((Op.acquire :: .tid :: .connect :: .flush :: .send1 :: .send2 :: tailOps k).filter
-          (· == .crelease)) = [.crelease] := by
-        simp [List.filter_cons, filter_crelease_tail]
-      refine inv_holder_step hi hl hoth (by simpa [stepOp, hc] using hl) (by simpa [stepOp, hc] using hnr)
-        (Stage.crel ?_ ?_ (Or.inr ⟨?_, ?_⟩) ?_) ⟨?_, ?_⟩
-      · simp [stepOp, hc, upd_same, hfil]
-      · simpa [stepOp, hc, State.shared] using q
-      · simp [stepOp, hc]
-      · simpa [stepOp, hc] using hso.2
-      · simpa [stepOp, hc] using hm
-      · intro x hx
-        have hx' : x ∈ (s.threads t).results ++ [((s.threads t).cur, (s.threads t).tidv, .raised .modbusExc)] := by
-          simpa [stepOp, hc, upd_same] using hx
-        rw [List.mem_append] at hx'
-        cases hx' with
-        | inl hx' => exact hok.served x hx'
-        | inr hx' =>
-          rw [List.mem_singleton] at hx'
-          exact Or.inr ⟨by rw [hx'], s.attempts, hc⟩
-      · exact hok.conserve.finish (curPending_of (by rw [h]; simp)) ((s.threads t).tidv, .raised .modbusExc)
-          (by simp [stepOp, hc, upd_same]) (by simp [stepOp, hc, upd_same])
-          (by simp [stepOp, hc, upd_same, hfil])
-  | acq k h q hs hm =>
-    rw [h] at hops; cases hops
-    have hm' : s.locks 1 = none := hm
-    refine inv_holder_step hi hl hoth ?_ ?_ (Stage.inner ?_ ?_ (IStage.tid k ?_ ?_)) ?_
-    · simpa [stepOp, lockKey, lockAcquire, hm', upd] using hl
-    · simpa [stepOp, lockKey, lockAcquire, hm'] using hnr
-    · simpa [stepOp, lockKey, lockAcquire, hm'] using hs
-    · simp [stepOp, lockKey, lockAcquire, hm', upd]
-    · simp [stepOp, lockKey, lockAcquire, hm', upd_same]
-    · simpa [stepOp, lockKey, lockAcquire, hm', State.shared] using q
-    · exact hok.congr (by simp [stepOp, lockKey, lockAcquire, hm', upd_same])
-        (by simp [stepOp, lockKey, lockAcquire, hm', upd_same])
-        (curPending_congr' (by simp [stepOp, lockKey, lockAcquire, hm', upd_same]) (by rw [h]; simp)
-          (by simp [stepOp, lockKey, lockAcquire, hm', upd_same]))
-  | crel h q hs hm =>
-    rw [h] at hops; cases hops
-    have hm' : s.locks 1 = none := hm
-    refine inv_crelease hi hl hoth ?_ rfl q hs ?_ (Or.inl ?_) ?_
-    · simp [stepOp, lockRelease, clientKey, hl, upd]
-    · simpa [stepOp, lockRelease, clientKey, hl, upd] using hm'
+    refine inv_inner_step hi hl hoth rfl hs rfl hc1 hfr hm (IStage.connect k ?_ ⟨q.1, q.2.1, rfl, q.2.2.2⟩) ?_
     · simp [stepOp, upd_same]
     · exact hok.congr (by simp [stepOp, upd_same]) (by simp [stepOp, upd_same])
-        (by simp [curPending, h, stepOp, upd_same])
-  | inner hs hm st =>
-    cases st with
-    | tid k h q =>
-      rw [h] at hops; cases hops
-      refine inv_inner_step hi hl hoth rfl hnr hs hm (IStage.connect k ?_ ⟨q.1, q.2.1, rfl, q.2.2.2⟩ ?_) ?_
+        (curPending_congr' (by simp [stepOp, upd_same]) (by rw [h]; simp) (by simp [stepOp, upd_same]))
+  | connect k h q =>
+    rw [h] at hops; cases hops
+    refine inv_inner_step hi hl hoth (by simp [stepOp, hs]) (by simpa [stepOp, hs] using hs) (by simp [stepOp, hs])
+      hc1 (by simpa [stepOp, hs] using hfr) hm (IStage.flush k ?_ ?_ ?_) ?_
+    · simp [stepOp, hs, upd_same]
+    · simpa [stepOp, hs, State.view, View.shared] using q
+    · simp [stepOp, hs, upd_same]
+    · exact hok.congr (by simp [stepOp, hs, upd_same]) (by simp [stepOp, hs, upd_same])
+        (curPending_congr' (by simp [stepOp, hs, upd_same]) (by rw [h]; simp) (by simp [stepOp, hs, upd_same]))
+  | flush k h q hfm =>
+    rw [h] at hops; cases hops
+    refine inv_inner_step hi hl hoth (by simp [stepOp, hs]) (by simpa [stepOp, hs] using hs) (by simp [stepOp, hs])
+      hc1 ?_ hm (IStage.send1 k ?_ ⟨?_, ?_, ?_, ?_⟩ ?_ ?_) ?_
+    · simp only [stepOp, hs]; exact hfr.upd_stream c [] hcn
+    · simp [stepOp, hs, upd_same]
+    · simpa [stepOp, hs, State.view, View.shared] using q.1
+    · simp [stepOp, hs, State.view, View.shared, upd_same]
+    · simpa [stepOp, hs, State.view, View.shared] using q.2.2.1
+    · simpa [stepOp, hs, State.view, View.shared] using q.2.2.2
+    · simpa [stepOp, hs, upd_same] using hfm
+    · simp [stepOp, hs, upd_same]
+    · exact hok.congr (by simp [stepOp, hs, upd_same]) (by simp [stepOp, hs, upd_same])
+        (curPending_congr' (by simp [stepOp, hs, upd_same]) (by rw [h]; simp) (by simp [stepOp, hs, upd_same]))
+  | send1 k h q hfm hc =>
+    rw [h] at hops; cases hops
+    have hp0 : s.pending c = [] := q.1
+    have hs0 : s.stream c = [] := q.2.1
+    refine inv_inner_step hi hl hoth rfl hs rfl hc1 ?_ hm
+      (IStage.send2 k ?_ ?_ ?_ ?_ ?_ q.2.2.1 ⟨s.wire, q.2.2.2, ?_⟩) ?_
+    · simp only [stepOp, hc]
+      exact (hfr.upd_pending c _ hcn).upd_stream c _ hcn
+    · simp [stepOp, upd_same]
+    · simpa [stepOp, upd_same] using hfm
+    · simpa [stepOp, upd_same] using hc
+    · simp only [stepOp, State.view, View.shared, upd_same, hc, hp0, hfm, server_send1]
+    · simp only [stepOp, State.view, View.shared, upd_same, hc, hp0, hs0, hfm, server_send1, answer_nil,
+        List.append_nil]
+    · simp [stepOp, State.view, View.shared, upd_same, hc]
+    · exact hok.congr (by simp [stepOp, upd_same]) (by simp [stepOp, upd_same])
+        (curPending_congr' (by simp [stepOp, upd_same]) (by rw [h]; simp) (by simp [stepOp, upd_same]))
+  | send2 k h hfm hc hp hsm hb hw =>
+    rw [h] at hops; cases hops
+    have hp0 : s.pending c = (s.threads t).frame.take 7 := hp
+    have hs0 : s.stream c = [] := hsm
+    obtain ⟨w, hw1, hw2⟩ := hw
+    have hw0 : s.wire = w ++ [⟨t, true, c, (s.threads t).frame.take 7⟩] := hw2
+    refine inv_inner_step hi hl hoth (by simp [stepOp, hs]) (by simpa [stepOp, hs] using hs) (by simp [stepOp, hs])
+      hc1 ?_ hm (IStage.waiting k ?_ ?_ ?_ ?_ ?_) ?_
+    · simp only [stepOp, hs, hc]
+      exact (hfr.upd_pending c _ hcn).upd_stream c _ hcn
+    · simp [stepOp, hs, upd_same]
+    · simp only [stepOp, hs, State.view, View.shared, upd_same, hc, hp0, hfm, server_send2]
+    · simp only [stepOp, hs, State.view, View.shared, upd_same, hc, hp0, hs0, hfm, server_send2, replyTo_frame,
+        List.nil_append]
+    · simpa [stepOp, hs, State.view, View.shared] using hb
+    · simp only [stepOp, hs, State.view, View.shared, hc, hw0, List.append_assoc]
+      exact pairs_snoc2 w _ _ hw1 rfl rfl rfl rfl
+    · exact hok.congr (by simp [stepOp, hs, upd_same]) (by simp [stepOp, hs, upd_same])
+        (curPending_congr' (by simp [stepOp, hs, upd_same]) (by rw [h]; simp) (by simp [stepOp, hs, upd_same]))
+  | waiting k h hp hsm hb hw =>
+    have hs0 : s.stream c = answer (s.threads t).cur (replyOf (s.threads t).tidv (s.threads t).cur) := hsm
+    have hp0 : s.pending c = [] := hp
+    cases k with
+    | succ k =>
+      rw [h, tailOps_succ] at hops; cases hops
+      refine inv_inner_step hi hl hoth rfl hs rfl hc1 hfr hm (IStage.waiting k ?_ hp ?_ hb hw) ?_
       · simp [stepOp, upd_same]
-      · simp [stepOp, upd_same, hnr]
+      · simpa [stepOp, State.view, View.shared, upd_same] using hs0
       · exact hok.congr (by simp [stepOp, upd_same]) (by simp [stepOp, upd_same])
           (curPending_congr' (by simp [stepOp, upd_same]) (by rw [h]; simp) (by simp [stepOp, upd_same]))
-    | connect k h q hf =>
-      rw [h] at hops; cases hops
-      refine inv_inner_step hi hl hoth (by simp [stepOp, hs]) (by simpa [stepOp, hs] using hnr)
-        (by simpa [stepOp, hs] using hs) hm (IStage.flush k ?_ ?_ ?_ ?_) ?_
-      · simp [stepOp, hs, upd_same]
-      · simpa [stepOp, hs, State.shared] using q
-      · simpa [stepOp, hs, upd_same] using hf
-      · simp [stepOp, hs, upd_same]
-      · exact hok.congr (by simp [stepOp, hs, upd_same]) (by simp [stepOp, hs, upd_same])
-          (curPending_congr' (by simp [stepOp, hs, upd_same]) (by rw [h]; simp) (by simp [stepOp, hs, upd_same]))
-    | flush k h q hf hfr =>
-      rw [h] at hops; cases hops
-      have hs0 : s.stream 0 = [] := q.2.1
-      refine inv_inner_step hi hl hoth (by simp [stepOp, hs]) (by simpa [stepOp, hs] using hnr)
-        (by simpa [stepOp, hs] using hs) hm (IStage.send1 k ?_ ⟨?_, ?_, ?_, ?_⟩ ?_ ?_ ?_) ?_
-      · simp [stepOp, hs, upd_same]
-      · simpa [stepOp, hs, State.shared] using q.1
-      · simp [stepOp, hs, State.shared, upd_same]
-      · simpa [stepOp, hs, State.shared] using q.2.2.1
-      · simpa [stepOp, hs, State.shared] using q.2.2.2
-      · simpa [stepOp, hs, upd_same] using hf
-      · simpa [stepOp, hs, upd_same] using hfr
-      · simp [stepOp, hs, upd_same]
-      · exact hok.congr (by simp [stepOp, hs, upd_same]) (by simp [stepOp, hs, upd_same])
-          (curPending_congr' (by simp [stepOp, hs, upd_same]) (by rw [h]; simp) (by simp [stepOp, hs, upd_same]))
-    | send1 k h q hf hfr hc =>
-      rw [h] at hops; cases hops
-      have hp0 : s.pending 0 = [] := q.1
-      have hs0 : s.stream 0 = [] := q.2.1
-      refine inv_inner_step hi hl hoth rfl hnr hs hm (IStage.send2 k ?_ ?_ ?_ ?_ ?_ ?_ q.2.2.1 ⟨s.wire, q.2.2.2, ?_⟩) ?_
-      · simp [stepOp, upd_same]
-      · simpa [stepOp, upd_same] using hf
-      · simpa [stepOp, upd_same] using hfr
-      · simpa [stepOp, upd_same] using hc
-      · simp only [stepOp, State.shared, upd_same, hc, hp0, hfr, server_send1]
-      · simp only [stepOp, State.shared, upd_same, hc, hp0, hs0, hfr, server_send1, List.append_nil]
-      · simp [stepOp, State.shared, upd_same, hc]
-      · exact hok.congr (by simp [stepOp, upd_same]) (by simp [stepOp, upd_same])
-          (curPending_congr' (by simp [stepOp, upd_same]) (by rw [h]; simp)
-            (by simp [stepOp, upd_same]))
-    | send2 k h hf hfr hc hp hsm hb hw =>
-      rw [h] at hops; cases hops
-      have hp0 : s.pending 0 = (s.threads t).frame.take 7 := hp
-      have hs0 : s.stream 0 = [] := hsm
-      obtain ⟨w, hw1, hw2⟩ := hw
-      have hw0 : s.wire = w ++ [⟨t, true, 0, (s.threads t).frame.take 7⟩] := hw2
-      refine inv_inner_step hi hl hoth (by simp [stepOp, hs]) (by simpa [stepOp, hs] using hnr)
-        (by simpa [stepOp, hs] using hs) hm (IStage.waiting k ?_ ?_ ?_ ?_ ?_ ?_) ?_
-      · simp [stepOp, hs, upd_same]
-      · simpa [stepOp, hs, upd_same] using hf
-      · simp only [stepOp, hs, State.shared, upd_same, hc, hp0, hfr, server_send2]
-      · simp only [stepOp, hs, State.shared, upd_same, hc, hp0, hs0, hfr, server_send2, replyTo_frame,
-          List.nil_append]
-      · simpa [stepOp, hs, State.shared] using hb
-      · simp only [stepOp, hs, State.shared, hc, hw0, List.append_assoc]
-        exact pairs_snoc2 w _ _ hw1 rfl rfl rfl rfl
-      · exact hok.congr (by simp [stepOp, hs, upd_same]) (by simp [stepOp, hs, upd_same])
-          (curPending_congr' (by simp [stepOp, hs, upd_same]) (by rw [h]; simp)
-            (by simp [stepOp, hs, upd_same]))
-    | waiting k h hf hp hsm hb hw =>
-      have hs0 : s.stream 0 = replyOf (s.threads t).tidv (s.threads t).cur := hsm
-      cases k with
-      | succ k =>
-        rw [h, tailOps_succ] at hops; cases hops
-        refine inv_inner_step hi hl hoth rfl hnr hs hm (IStage.waiting k ?_ ?_ hp ?_ hb hw) ?_
-        · simp [stepOp, upd_same]
-        · simpa [stepOp, upd_same] using hf
-        · simpa [stepOp, State.shared, upd_same] using hs0
-        · exact hok.congr (by simp [stepOp, upd_same]) (by simp [stepOp, upd_same])
-            (curPending_congr' (by simp [stepOp, upd_same]) (by rw [h]; simp)
-              (by simp [stepOp, upd_same]))
-      | zero =>
-        rw [h, tailOps_zero] at hops; cases hops
-        have e8 : ((s.stream 0).take 8).length = 8 := by rw [hs0]; exact replyOf_take8 _ _
-        have e : stepOp .whole s t (s.threads t) [.recv2, .process, .release, .crelease] .recv1 =
-            { s with stream := upd s.stream 0 ((s.stream 0).drop 8),
-                     threads := upd s.threads t
-                       { s.threads t with ops := [.recv2, .process, .release, .crelease], hdr := (s.stream 0).take 8 },
-                     trace := (t, .recv1) :: s.trace } := by
-          simp only [stepOp, hs, hf, Bool.false_eq_true, if_false]
-          rw [if_pos e8]
-        have hoth' := hoth
-        rw [e] at hoth' ⊢
-        refine inv_inner_step hi hl hoth' rfl hnr hs hm (IStage.recv2 ?_ ?_ hp ?_ hb hw) ?_
-        · simp [upd_same]
-        · simp only [upd_same, hs0]
-        · simp only [State.shared, upd_same, hs0]
-        · exact hok.congr (by simp [upd_same]) (by simp [upd_same])
-            (curPending_congr' (by simp [upd_same]) (by rw [h]; simp) (by simp [upd_same]))
-    | recv2 h hh hp hsm hb hw =>
-      rw [h] at hops; cases hops
-      have hs0 : s.stream 0 = (replyOf (s.threads t).tidv (s.threads t).cur).drop 8 := hsm
-      have hresp : (s.threads t).hdr ++ (s.stream 0).take (restSize (s.threads t).hdr) =
-          replyOf (s.threads t).tidv (s.threads t).cur := by
-        rw [hh, hs0, restSize_reply]; exact (reply_reassembled _ _).1
-      have hl9 := replyOf_length (s.threads t).tidv (s.threads t).cur
-      have hne : (replyOf (s.threads t).tidv (s.threads t).cur).isEmpty = false := by
-        cases hr : replyOf (s.threads t).tidv (s.threads t).cur with
-        | nil => rw [hr] at hl9; simp at hl9
-        | cons a l => rfl
-      refine inv_inner_step hi hl hoth (by simp [stepOp, hs]) ?_ (by simp [stepOp, hs]) hm
-        (IStage.process ?_ ?_ ⟨?_, ?_, ?_, ?_⟩) ?_
-      · simp only [stepOp, hs, hresp, hnr]
-        simp [noteResp, hne]
-      · simp [stepOp, hs, upd_same]
-      · simp only [stepOp, hs, upd_same, hresp]
-      · simpa [stepOp, hs, State.shared] using hp
-      · simp only [stepOp, hs, State.shared, upd_same]
-        rw [hh, hs0, restSize_reply]; exact (reply_reassembled _ _).2
-      · simpa [stepOp, hs, State.shared] using hb
-      · simpa [stepOp, hs, State.shared] using hw
-      · exact hok.congr (by simp [stepOp, hs, upd_same]) (by simp [stepOp, hs, upd_same])
-          (curPending_congr' (by simp [stepOp, hs, upd_same]) (by rw [h]; simp) (by simp [stepOp, hs, upd_same]))
-    | process h hr q =>
-      rw [h] at hops; cases hops
-      have hb0 : s.buf = [] := q.2.2.1
-      have hpr := process_reply (s.threads t).tidv (s.threads t).cur
+    | zero =>
+      rw [h, tailOps_zero] at hops; cases hops
+      cases hf : (s.threads t).full with
+      | true =>
+        -- `recvPacket(None)`: whatever is there (the whole reply, or nothing if it was lost); no second read
+        refine inv_inner_step hi hl hoth (by simp [stepOp, hs, hf]) (by simp [stepOp, hs, hf])
+          (by simp [stepOp, hs, hf]) hc1 ?_ hm (IStage.process ?_ ?_ ⟨?_, ?_, ?_, ?_⟩) ?_
+        · simp only [stepOp, hs, hf, if_true]; exact hfr.upd_stream c [] hcn
+        · simp [stepOp, hs, hf, upd_same]
+        · simp only [stepOp, hs, hf, if_true, upd_same, hs0]
+        · simpa [stepOp, hs, hf, State.view, View.shared] using hp0
+        · simp [stepOp, hs, hf, State.view, View.shared, upd_same]
+        · simpa [stepOp, hs, hf, State.view, View.shared] using hb
+        · simpa [stepOp, hs, hf, State.view, View.shared] using hw
+        · exact hok.congr (by simp [stepOp, hs, hf, upd_same]) (by simp [stepOp, hs, hf, upd_same])
+            (curPending_congr' (by simp [stepOp, hs, hf, upd_same]) (by rw [h]; simp)
+              (by simp [stepOp, hs, hf, upd_same]))
+      | false =>
+        cases hlost : (s.threads t).cur.lost with
+        | false =>
+          have hs1 : s.stream c = replyOf (s.threads t).tidv (s.threads t).cur := by
+            rw [hs0, answer_kept hlost]
+          have e8 : ((s.stream c).take 8).length = 8 := by rw [hs1]; exact replyOf_take8 _ _
+          have e : stepOp .whole s t (s.threads t) [.recv2, .process, .release, .crelease] .recv1 =
+              { s with stream := upd s.stream c ((s.stream c).drop 8),
+                       threads := upd s.threads t
+                         { s.threads t with ops := [.recv2, .process, .release, .crelease], hdr := (s.stream c).take 8 },
+                       trace := (t, .recv1) :: s.trace } := by
+            simp only [stepOp, hs, hf, Bool.false_eq_true, if_false]
+            rw [if_pos e8]
+          have hoth' := hoth
+          rw [e] at hoth' ⊢
+          refine inv_inner_step hi hl hoth' rfl hs rfl hc1 (hfr.upd_stream c _ hcn) hm
+            (IStage.recv2 ?_ ?_ ?_ hp ?_ hb hw) ?_
+          · simp [upd_same]
+          · simpa [upd_same] using hlost
+          · simp only [upd_same, hs1]
+          · simp only [State.view, View.shared, upd_same, hs1]
+          · exact hok.congr (by simp [upd_same]) (by simp [upd_same])
+              (curPending_congr' (by simp [upd_same]) (by rw [h]; simp) (by simp [upd_same]))
+        | true =>
+          -- the reply was lost: the read comes back short, `_transact` closes the connection
+          have hs1 : s.stream c = [] := by rw [hs0, answer_lost hlost]
+          have e : stepOp .whole s t (s.threads t) [.recv2, .process, .release, .crelease] .recv1 =
+              { s with stream := upd s.stream c [], sock := none,
+                       noResp := noteResp s.noResp (s.threads t).cur.unit [],
+                       threads := upd s.threads t
+                         { s.threads t with ops := [.process, .release, .crelease], hdr := [], resp := [] },
+                       trace := (t, .recv1) :: s.trace } := by
+            simp [stepOp, hs, hf, hs1]
+          have hoth' := hoth
+          rw [e] at hoth' ⊢
+          refine inv_holder_step hi hl hoth' hl
+            (Stage.closedProc ?_ ?_ ?_ rfl hb hw (hfr.upd_stream c [] hcn) hm) ?_
+          · simp [upd_same]
+          · simp [upd_same]
+          · simpa [upd_same] using hlost
+          · exact hok.congr (by simp [upd_same]) (by simp [upd_same])
+              (curPending_congr' (by simp [upd_same]) (by rw [h]; simp) (by simp [upd_same]))
+  | recv2 h hlost hh hp hsm hb hw =>
+    rw [h] at hops; cases hops
+    have hs0 : s.stream c = (replyOf (s.threads t).tidv (s.threads t).cur).drop 8 := hsm
+    have hresp : (s.threads t).hdr ++ (s.stream c).take (restSize (s.threads t).hdr) =
+        replyOf (s.threads t).tidv (s.threads t).cur := by
+      rw [hh, hs0, restSize_reply]; exact (reply_reassembled _ _).1
+    refine inv_inner_step hi hl hoth (by simp [stepOp, hs]) (by simp [stepOp, hs]) (by simp [stepOp, hs]) hc1 ?_ hm
+      (IStage.process ?_ ?_ ⟨?_, ?_, ?_, ?_⟩) ?_
+    · simp only [stepOp, hs]; exact hfr.upd_stream c _ hcn
+    · simp [stepOp, hs, upd_same]
+    · simp only [stepOp, hs, upd_same, hresp, answer_kept hlost]
+    · simpa [stepOp, hs, State.view, View.shared] using hp
+    · simp only [stepOp, hs, State.view, View.shared, upd_same]
+      rw [hh, hs0, restSize_reply]; exact (reply_reassembled _ _).2
+    · simpa [stepOp, hs, State.view, View.shared] using hb
+    · simpa [stepOp, hs, State.view, View.shared] using hw
+    · exact hok.congr (by simp [stepOp, hs, upd_same]) (by simp [stepOp, hs, upd_same])
+        (curPending_congr' (by simp [stepOp, hs, upd_same]) (by rw [h]; simp) (by simp [stepOp, hs, upd_same]))
+  | process h hr q =>
+    rw [h] at hops; cases hops
+    have hb0 : s.buf = [] := q.2.2.1
+    have hcp : curPending (s.threads t) = [(s.threads t).cur] := curPending_of (by rw [h]; simp)
+    cases hlost : (s.threads t).cur.lost with
+    | false =>
       have hpr' : processResp (s.threads t).cur.unit (s.threads t).tidv s.buf (s.threads t).resp =
           (.ok (s.threads t).tidv (s.threads t).cur.unit (Spec.expected (s.threads t).cur), []) := by
-        rw [hb0, hr, hpr]
-      have hcp : curPending (s.threads t) = [(s.threads t).cur] := curPending_of (by rw [h]; simp)
-      refine inv_inner_step hi hl hoth rfl hnr ?_ hm (IStage.release ?_ ⟨q.1, q.2.1, ?_, q.2.2.2⟩) ⟨?_, ?_⟩
+        rw [hb0, hr, answer_kept hlost, process_reply]
+      refine inv_inner_step hi hl hoth rfl ?_ rfl hc1 hfr hm (IStage.release ?_ ⟨q.1, q.2.1, ?_, q.2.2.2⟩) ⟨?_, ?_⟩
       · simp only [stepOp, hpr', Result.isOk, if_true]; exact hs
       · simp [stepOp, upd_same]
       · show (processResp (s.threads t).cur.unit (s.threads t).tidv s.buf (s.threads t).resp).2 = []
@@ -484,22 +478,232 @@ theorem inv_holder_op {s : State} {t : Nat} {op : Op} {ops : List Op} (hi : Inv 
         | inr hx' =>
           rw [List.mem_singleton] at hx'
           rw [hx', hpr']
-          exact Or.inl rfl
+          exact Or.inr (Or.inr ⟨hlost, rfl⟩)
       · exact hok.conserve.finish hcp
           ((s.threads t).tidv, (processResp (s.threads t).cur.unit (s.threads t).tidv s.buf (s.threads t).resp).1)
           (by simp [stepOp, upd_same]) (by simp [stepOp, upd_same]) (by simp [stepOp, upd_same])
-    | release h q =>
-      rw [h] at hops; cases hops
-      have hm' : s.locks 1 = some (t, 1) := hm
-      refine inv_holder_step hi hl hoth ?_ ?_ (Stage.crel ?_ ?_ ?_ ?_) ?_
-      · simpa [stepOp, lockKey, lockRelease, hm', upd] using hl
-      · simpa [stepOp, lockKey] using hnr
-      · simp [stepOp, lockKey, upd_same]
-      · simpa [stepOp, lockKey, State.shared] using q
-      · exact Or.inl (by simpa [stepOp, lockKey] using hs)
-      · simp [stepOp, lockKey, lockRelease, hm', upd]
-      · exact hok.congr (by simp [stepOp, lockKey, upd_same]) (by simp [stepOp, lockKey, upd_same])
-          (by simp [curPending, h, stepOp, lockKey, upd_same])
+    | true =>
+      -- nothing was read (full-read mode): the error object is made, the connection closed
+      have hpr' : processResp (s.threads t).cur.unit (s.threads t).tidv s.buf (s.threads t).resp =
+          (.err .modbusIO, []) := by
+        rw [hb0, hr, answer_lost hlost, processResp_nil]
+      refine inv_holder_step hi hl hoth hl (Stage.closedRel ?_ ?_ ?_ q.2.2.2 hfr hm) ⟨?_, ?_⟩
+      · simp [stepOp, upd_same]
+      · show (stepOp .whole s t (s.threads t) [.release, .crelease] .process).view.sock = none
+        simp [State.view, stepOp, hpr', Result.isOk]
+      · show (processResp (s.threads t).cur.unit (s.threads t).tidv s.buf (s.threads t).resp).2 = []
+        rw [hpr']
+      · intro x hx
+        have hx' : x ∈ (s.threads t).results ++
+            [((s.threads t).cur, (s.threads t).tidv,
+              (processResp (s.threads t).cur.unit (s.threads t).tidv s.buf (s.threads t).resp).1)] := by
+          simpa [stepOp, upd_same] using hx
+        rw [List.mem_append] at hx'
+        cases hx' with
+        | inl hx' => exact hok.served x hx'
+        | inr hx' =>
+          rw [List.mem_singleton] at hx'
+          rw [hx', hpr']
+          exact Or.inr (Or.inl ⟨hlost, rfl⟩)
+      · exact hok.conserve.finish hcp
+          ((s.threads t).tidv, (processResp (s.threads t).cur.unit (s.threads t).tidv s.buf (s.threads t).resp).1)
+          (by simp [stepOp, upd_same]) (by simp [stepOp, upd_same]) (by simp [stepOp, upd_same])
+  | release h q =>
+    rw [h] at hops; cases hops
+    have hb0 : s.buf = [] := q.2.2.1
+    have hw0 : pairs s.wire = true := q.2.2.2
+    have hp0 : s.pending c = [] := q.1
+    have hs0 : s.stream c = [] := q.2.1
+    have hidle : Idle (stepOp .whole s t (s.threads t) [.crelease] .release).view := by
+      refine ⟨?_, ?_, ?_, ?_⟩
+      · simpa [stepOp, lockKey, State.view] using hb0
+      · simpa [stepOp, lockKey, State.view] using hw0
+      · simpa [stepOp, lockKey, State.view] using hfr
+      · intro c' hc'
+        have : c' = c := by
+          have : s.sock = some c' := by simpa [stepOp, lockKey, State.view] using hc'
+          rw [hs] at this; cases this; rfl
+        subst this
+        exact ⟨by simpa [stepOp, lockKey, State.view] using hc1,
+          by simpa [stepOp, lockKey, State.view] using hp0, by simpa [stepOp, lockKey, State.view] using hs0⟩
+    refine inv_holder_step hi hl hoth ?_ (Stage.crel ?_ hidle ?_) ?_
+    · simpa [stepOp, lockKey, lockRelease, hm, upd] using hl
+    · simp [stepOp, lockKey, upd_same]
+    · simp [stepOp, lockKey, lockRelease, hm, upd, State.view]
+    · exact hok.congr (by simp [stepOp, lockKey, upd_same]) (by simp [stepOp, lockKey, upd_same])
+        (by simp [curPending, h, stepOp, lockKey, upd_same])
+
+theorem idle_of_fields {s s' : State} (q : Idle s.view) (h1 : s'.buf = s.buf) (h2 : s'.wire = s.wire)
+    (h3 : s'.pending = s.pending) (h4 : s'.stream = s.stream) (h5 : s'.sock = s.sock)
+    (h6 : s'.nextConn = s.nextConn) : Idle s'.view := by
+  unfold Idle State.view at *
+  simp only [h1, h2, h3, h4, h5, h6]
+  exact q
+
+theorem inv_holder_op {s : State} {t : Nat} {op : Op} {ops : List Op} (hi : Inv reqs s)
+    (hl : s.locks 0 = some (t, 1)) (hst : Stage s.view t (s.threads t))
+    (hops : (s.threads t).ops = op :: ops) : Inv reqs (stepOp .whole s t (s.threads t) ops op) := by
+  have hok := hi.ok t
+  have hoth := fun u (hu : u ≠ t) => stepOp_threads_other .whole s t (s.threads t) ops op u hu
+  cases hst with
+  | inner c hs hc1 hfr hm st => exact inv_holder_inner hi hl hs hc1 hfr hm st hops
+  | pre k h q hm =>
+    rw [h] at hops; cases hops
+    have hm' : s.locks 1 = none := hm
+    cases hsock : s.sock with
+    | some c =>
+      refine inv_holder_step hi hl hoth (by simpa [stepOp, hsock] using hl) (Stage.acq k ?_ ?_ c ?_ ?_) ?_
+      · simp [stepOp, hsock, upd_same]
+      · exact idle_of_fields q (by simp [stepOp, hsock]) (by simp [stepOp, hsock]) (by simp [stepOp, hsock])
+          (by simp [stepOp, hsock]) (by simp [stepOp, hsock]) (by simp [stepOp, hsock])
+      · simpa [stepOp, hsock, State.view] using hsock
+      · simpa [stepOp, hsock, State.view] using hm'
+      · exact hok.congr (by simp [stepOp, hsock, upd_same]) (by simp [stepOp, hsock, upd_same])
+          (curPending_congr' (by simp [stepOp, hsock, upd_same]) (by rw [h]; simp)
+            (by simp [stepOp, hsock, upd_same]))
+    | none =>
+      refine inv_holder_step hi hl hoth (by simpa [stepOp, hsock] using hl) (Stage.opening k ?_ ?_ ?_ ?_) ?_
+      · simp [stepOp, hsock, upd_same]
+      · exact idle_of_fields q (by simp [stepOp, hsock]) (by simp [stepOp, hsock]) (by simp [stepOp, hsock])
+          (by simp [stepOp, hsock]) (by simp [stepOp, hsock]) (by simp [stepOp, hsock])
+      · simpa [stepOp, hsock, State.view] using hsock
+      · simpa [stepOp, hsock, State.view] using hm'
+      · exact hok.congr (by simp [stepOp, hsock, upd_same]) (by simp [stepOp, hsock, upd_same])
+          (curPending_congr' (by simp [stepOp, hsock, upd_same]) (by rw [h]; simp)
+            (by simp [stepOp, hsock, upd_same]))
+  | opening k h q hso hm =>
+    rw [h] at hops; cases hops
+    have hm' : s.locks 1 = none := hm
+    have hso' : s.sock = none := hso
+    obtain ⟨qb, qw, qf, _⟩ := q
+    have qb' : s.buf = [] := qb
+    have qw' : pairs s.wire = true := qw
+    have qf' : FreshF s.pending s.stream s.nextConn := qf
+    cases hc : s.connOk s.attempts with
+    | true =>
+      refine inv_holder_step hi hl hoth (by simpa [stepOp, hc] using hl)
+        (Stage.acq k ?_ ⟨?_, ?_, ?_, ?_⟩ s.nextConn ?_ ?_) ?_
+      · simp [stepOp, hc, upd_same]
+      · simpa [stepOp, hc, State.view] using qb'
+      · simpa [stepOp, hc, State.view] using qw'
+      · simp only [stepOp, hc, State.view, if_true]
+        intro c' hc'; exact qf' c' (by omega)
+      · intro c' hc'
+        have : c' = s.nextConn := by
+          have : some s.nextConn = some c' := by simpa [stepOp, hc, State.view] using hc'
+          cases this; rfl
+        subst this
+        exact ⟨by simp [stepOp, hc, State.view], by simpa [stepOp, hc, State.view] using (qf' _ (Nat.le_refl _)).1,
+          by simpa [stepOp, hc, State.view] using (qf' _ (Nat.le_refl _)).2⟩
+      · simp [stepOp, hc, State.view]
+      · simpa [stepOp, hc, State.view] using hm'
+      · exact hok.congr (by simp [stepOp, hc, upd_same]) (by simp [stepOp, hc, upd_same])
+          (curPending_congr' (by simp [stepOp, hc, upd_same]) (by rw [h]; simp) (by simp [stepOp, hc, upd_same]))
+    | false =>
+      -- refused: ConnectionException leaves `execute`, the `with` gives the client lock back
+      have hfil : ((Op.acquire :: .tid :: .connect :: .flush :: .send1 :: .send2 :: tailOps k).filter
+          (· == .crelease)) = [.crelease] := by
+        simp [List.filter_cons, filter_crelease_tail]
+      refine inv_holder_step hi hl hoth (by simpa [stepOp, hc] using hl)
+        (Stage.crel ?_ ⟨?_, ?_, ?_, ?_⟩ ?_) ⟨?_, ?_⟩
+      · simp [stepOp, hc, upd_same, hfil]
+      · simpa [stepOp, hc, State.view] using qb'
+      · simpa [stepOp, hc, State.view] using qw'
+      · simpa [stepOp, hc, State.view] using qf'
+      · intro c' hc'
+        have : (none : Option Nat) = some c' := by simpa [stepOp, hc, State.view] using hc'
+        cases this
+      · simpa [stepOp, hc, State.view] using hm'
+      · intro x hx
+        have hx' : x ∈ (s.threads t).results ++ [((s.threads t).cur, (s.threads t).tidv, .raised .modbusExc)] := by
+          simpa [stepOp, hc, upd_same] using hx
+        rw [List.mem_append] at hx'
+        cases hx' with
+        | inl hx' => exact hok.served x hx'
+        | inr hx' =>
+          rw [List.mem_singleton] at hx'
+          exact Or.inl ⟨by rw [hx'], s.attempts, hc⟩
+      · exact hok.conserve.finish (curPending_of (by rw [h]; simp)) ((s.threads t).tidv, .raised .modbusExc)
+          (by simp [stepOp, hc, upd_same]) (by simp [stepOp, hc, upd_same])
+          (by simp [stepOp, hc, upd_same, hfil])
+  | acq k h q c hs hm =>
+    rw [h] at hops; cases hops
+    have hm' : s.locks 1 = none := hm
+    have hs' : s.sock = some c := hs
+    have hq := q.quiet c hs
+    obtain ⟨_, _, qf, qc⟩ := q
+    have qf' : FreshF s.pending s.stream s.nextConn := qf
+    have hc1 : c + 1 = s.nextConn := (qc c hs).1
+    refine inv_holder_step hi hl hoth ?_ (Stage.inner c ?_ ?_ ?_ ?_ (IStage.tid k ?_ ?_)) ?_
+    · simpa [stepOp, lockKey, lockAcquire, hm', upd] using hl
+    · simpa [stepOp, lockKey, lockAcquire, hm', State.view] using hs'
+    · simpa [stepOp, lockKey, lockAcquire, hm', State.view] using hc1
+    · simpa [stepOp, lockKey, lockAcquire, hm', State.view] using qf'
+    · simp [stepOp, lockKey, lockAcquire, hm', upd, State.view]
+    · simp [stepOp, lockKey, lockAcquire, hm', upd_same]
+    · simpa [stepOp, lockKey, lockAcquire, hm', State.view, View.shared] using hq
+    · exact hok.congr (by simp [stepOp, lockKey, lockAcquire, hm', upd_same])
+        (by simp [stepOp, lockKey, lockAcquire, hm', upd_same])
+        (curPending_congr' (by simp [stepOp, lockKey, lockAcquire, hm', upd_same]) (by rw [h]; simp)
+          (by simp [stepOp, lockKey, lockAcquire, hm', upd_same]))
+  | closedProc h hr hlost hs hb hw hfr hm =>
+    rw [h] at hops; cases hops
+    have hb0 : s.buf = [] := hb
+    have hs' : s.sock = none := hs
+    have hm' : s.locks 1 = some (t, 1) := hm
+    have hcp : curPending (s.threads t) = [(s.threads t).cur] := curPending_of (by rw [h]; simp)
+    have hpr' : processResp (s.threads t).cur.unit (s.threads t).tidv s.buf (s.threads t).resp =
+        (.err .modbusIO, []) := by rw [hb0, hr, processResp_nil]
+    refine inv_holder_step hi hl hoth hl (Stage.closedRel ?_ ?_ ?_ hw hfr hm') ⟨?_, ?_⟩
+    · simp [stepOp, upd_same]
+    · show (stepOp .whole s t (s.threads t) [.release, .crelease] .process).view.sock = none
+      simp [State.view, stepOp, hpr', Result.isOk]
+    · show (processResp (s.threads t).cur.unit (s.threads t).tidv s.buf (s.threads t).resp).2 = []
+      rw [hpr']
+    · intro x hx
+      have hx' : x ∈ (s.threads t).results ++
+          [((s.threads t).cur, (s.threads t).tidv,
+            (processResp (s.threads t).cur.unit (s.threads t).tidv s.buf (s.threads t).resp).1)] := by
+        simpa [stepOp, upd_same] using hx
+      rw [List.mem_append] at hx'
+      cases hx' with
+      | inl hx' => exact hok.served x hx'
+      | inr hx' =>
+        rw [List.mem_singleton] at hx'
+        rw [hx', hpr']
+        exact Or.inr (Or.inl ⟨hlost, rfl⟩)
+    · exact hok.conserve.finish hcp
+        ((s.threads t).tidv, (processResp (s.threads t).cur.unit (s.threads t).tidv s.buf (s.threads t).resp).1)
+        (by simp [stepOp, upd_same]) (by simp [stepOp, upd_same]) (by simp [stepOp, upd_same])
+  | closedRel h hs hb hw hfr hm =>
+    rw [h] at hops; cases hops
+    have hb0 : s.buf = [] := hb
+    have hw0 : pairs s.wire = true := hw
+    have hs' : s.sock = none := hs
+    have hm' : s.locks 1 = some (t, 1) := hm
+    have hf0 : FreshF s.pending s.stream s.nextConn := hfr
+    refine inv_holder_step hi hl hoth ?_ (Stage.crel ?_ ⟨?_, ?_, ?_, ?_⟩ ?_) ?_
+    · simpa [stepOp, lockKey, lockRelease, hm', upd] using hl
+    · simp [stepOp, lockKey, upd_same]
+    · simpa [stepOp, lockKey, State.view] using hb0
+    · simpa [stepOp, lockKey, State.view] using hw0
+    · simpa [stepOp, lockKey, State.view] using hf0
+    · intro c' hc'
+      have : s.sock = some c' := by simpa [stepOp, lockKey, State.view] using hc'
+      rw [hs'] at this; cases this
+    · simp [stepOp, lockKey, lockRelease, hm', upd, State.view]
+    · exact hok.congr (by simp [stepOp, lockKey, upd_same]) (by simp [stepOp, lockKey, upd_same])
+        (by simp [curPending, h, stepOp, lockKey, upd_same])
+  | crel h q hm =>
+    rw [h] at hops; cases hops
+    have hm' : s.locks 1 = none := hm
+    refine inv_crelease hi hl hoth ?_ ?_ ?_ (Or.inl ?_) ?_
+    · simp [stepOp, lockRelease, clientKey, hl, upd]
+    · exact idle_of_fields q rfl rfl rfl rfl rfl rfl
+    · simpa [stepOp, lockRelease, clientKey, hl, upd] using hm'
+    · simp [stepOp, upd_same]
+    · exact hok.congr (by simp [stepOp, upd_same]) (by simp [stepOp, upd_same])
+        (by simp [curPending, h, stepOp, upd_same])
 
 theorem not_holder_of_outside {s : State} {t : Nat} (hi : Inv reqs s) (ho : Outside (s.threads t)) :
     ∀ h d, s.locks 0 = some (h, d) → t ≠ h := by
@@ -509,9 +713,9 @@ theorem not_holder_of_outside {s : State} {t : Nat} (hi : Inv reqs s) (ho : Outs
 
 theorem outside_or_holder {s : State} (hi : Inv reqs s) (t : Nat) :
     Outside (s.threads t) ∨
-      (s.locks 0 = some (t, 1) ∧ Stage s.shared s.sock s.nextConn (s.locks 1) t (s.threads t)) := by
+      (s.locks 0 = some (t, 1) ∧ Stage s.view t (s.threads t)) := by
   cases hl : s.locks 0 with
-  | none => exact Or.inl ((hi.free hl).2.2.2 t)
+  | none => exact Or.inl ((hi.free hl).2.2 t)
   | some p =>
     obtain ⟨h, d⟩ := p
     obtain ⟨hd, hst, ho⟩ := hi.held h d hl
@@ -533,7 +737,7 @@ theorem inv_step {s : State} (hi : Inv reqs s) (t : Nat) : Inv reqs (step .whole
       have hok := hi.ok t
       refine inv_outsider_step hi (not_holder_of_outside hi hout)
         (s' := stepBegin .whole s t (s.threads t) r rest)
-        (fun u hu => by simp [stepBegin, upd, hu]) rfl rfl rfl rfl rfl ?_ ⟨?_, ?_⟩
+        (fun u hu => by simp [stepBegin, upd, hu]) rfl rfl ?_ ⟨?_, ?_⟩
       · exact Or.inr ⟨r.lat, by simp [stepBegin, upd_same, txnOps_whole]⟩
       · intro x hx
         exact hok.served x (by simpa [stepBegin, upd_same] using hx)
@@ -560,15 +764,16 @@ theorem inv_step {s : State} (hi : Inv reqs s) (t : Nat) : Inv reqs (step .whole
         rw [hk] at hops; cases hops
         cases hl : s.locks 0 with
         | none =>
-          obtain ⟨q, hso, hm, _⟩ := hi.free hl
+          obtain ⟨q, hm, _⟩ := hi.free hl
           show Inv reqs (stepOp .whole s t (s.threads t) _ .cacquire)
-          refine inv_cacquire hi hl hoth ?_ ?_ (Stage.pre k ?_ ?_ ?_ ?_) ?_
+          refine inv_cacquire hi hl hoth ?_ (Stage.pre k ?_ ?_ ?_) ?_
           · simp [stepOp, clientKey, lockAcquire, hl, upd]
-          · simp [stepOp, clientKey, lockAcquire, hl]
           · simp [stepOp, clientKey, lockAcquire, hl, upd_same]
-          · simpa [stepOp, clientKey, lockAcquire, hl, State.shared] using q
-          · simpa [stepOp, clientKey, lockAcquire, hl] using hso
-          · simpa [stepOp, clientKey, lockAcquire, hl, upd] using hm
+          · exact idle_of_fields q (by simp [stepOp, clientKey, lockAcquire, hl])
+              (by simp [stepOp, clientKey, lockAcquire, hl]) (by simp [stepOp, clientKey, lockAcquire, hl])
+              (by simp [stepOp, clientKey, lockAcquire, hl]) (by simp [stepOp, clientKey, lockAcquire, hl])
+              (by simp [stepOp, clientKey, lockAcquire, hl])
+          · simpa [stepOp, clientKey, lockAcquire, hl, upd, State.view] using hm
           · exact hok.congr (by simp [stepOp, clientKey, lockAcquire, hl, upd_same])
               (by simp [stepOp, clientKey, lockAcquire, hl, upd_same])
               (curPending_congr' (by simp [stepOp, clientKey, lockAcquire, hl, upd_same]) (by rw [hk]; simp)
@@ -583,15 +788,20 @@ theorem inv_step {s : State} (hi : Inv reqs s) (t : Nat) : Inv reqs (step .whole
           rw [e]; exact hi
 
 /-- the initial state satisfies the invariant, whether the client is connected or not, whatever the fate of the
-    connection attempts to come -/
+    connection attempts and of the replies to come -/
 theorem inv_init (reqs : Nat → List Req) (connected : Bool) (cok : Nat → Bool) :
     Inv reqs (init reqs connected cok) := by
-  refine ⟨rfl, ?_, ?_, ?_⟩
+  refine ⟨?_, ?_, ?_⟩
   · intro _
-    refine ⟨⟨rfl, rfl, rfl, rfl⟩, ?_, rfl, fun t => Or.inl rfl⟩
+    refine ⟨⟨rfl, rfl, fun c _ => ⟨rfl, rfl⟩, ?_⟩, rfl, fun t => Or.inl rfl⟩
+    intro c hc
     cases connected
-    · exact Or.inr ⟨rfl, rfl⟩
-    · exact Or.inl rfl
+    · simp [State.view, init] at hc
+    · have : c = 0 := by
+        have : some 0 = some c := by simpa [State.view, init] using hc
+        cases this; rfl
+      subst this
+      exact ⟨rfl, rfl, rfl⟩
   · intro h d hl; cases hl
   · intro t
     refine ⟨?_, ?_⟩
@@ -620,16 +830,16 @@ theorem exists_runnable {s : State} (hi : Inv reqs s) (t : Nat) (hnd : (s.thread
   cases hl : s.locks 0 with
   | some p =>
     obtain ⟨h, d⟩ := p
-    obtain ⟨op, l, ho, hne, hacq⟩ := (hi.held h d hl).2.1.head
+    obtain ⟨op, l, ho, hne, hacq, _, _⟩ := (hi.held h d hl).2.1.head
     refine ⟨h, ?_⟩
     by_cases ha : op = .acquire
     · subst ha
-      have hm := hacq rfl
+      have hm : s.locks 1 = none := hacq rfl
       simp [runnable, ho, lockKey, hm]
     · exact runnable_of_head _ _ _ _ _ ho ha hne
   | none =>
     refine ⟨t, ?_⟩
-    cases (hi.free hl).2.2.2 t with
+    cases (hi.free hl).2.2 t with
     | inl h0 =>
       cases htodo : (s.threads t).todo with
       | nil => simp [Thread.done, h0, htodo] at hnd
@@ -689,3 +899,4 @@ theorem fair_rounds_finish {s : State} (hi : Inv reqs s) (n : Nat)
       simp at hk
       omega
 end Pymodbus.Sched
+
